@@ -66,6 +66,8 @@ def load_jobs():
         j.setdefault("loops", True)
         j.setdefault("contracts", [])
         j.setdefault("expect_fail", None)
+        if not j.get("enforce") and not j["replace"] and not j.get("replayer"):
+            j["replayer"] = "harness"   # harness-style job: its own harness file can be run natively on the counterexample
     return jobs
 
 
@@ -291,7 +293,16 @@ def trace_inputs(trace, entry=None):
     -> {"kv": {key: [unsigned value, width]}, "text": {key: printable}}"""
     kv = {}
     text = {}
+    nd = 0
     for st in trace:
+        if st.get("stepType") == "assignment" and not st.get("hidden") and re.match(r"^(goto_symex\$\$)?return_value(\$\$)?_?nondet_\w+", st.get("lhs", "")) and "binary" in st.get("value", {}):
+            v = st["value"]
+            try:
+                kv["nd.%d" % nd] = [int(v["binary"], 2), int(v.get("width", len(v["binary"])))]
+                nd += 1
+            except ValueError:
+                pass
+            continue
         if st.get("stepType") != "assignment":
             continue
         lhs = st.get("lhs", "")
@@ -368,6 +379,7 @@ def main():
     jobs = load_jobs()
     known, fixed = load_known()
     sel = [j for j in jobs if args.prop in j["props"] or args.prop == "ALL"]
+    sel = [j for j in sel if j["tier"] != "off"]   # "off": written and kept, but not decidable on this machine (see DESIGN 8.2)
     if args.tier == "quick":
         sel = [j for j in sel if j["tier"] == "quick" and args.prop not in j.get("thorough_for", [])]
         if args.prop == "C01":
